@@ -33,12 +33,15 @@ def build():
     return _built["bin"]
 
 
-def run_engine(props):
+def run_engine(props, z3bin=None):
     binp = build()
     out = os.path.join(VERIF, "build", "lifted-%s-%d.json" % ("-".join(props), os.getpid()))
     cap = 1500 if tier() == "quick" else 3600
     try:
-        r = subprocess.run([binp, tier(), ",".join(props), out], stdout=subprocess.PIPE, stderr=subprocess.PIPE, text=True, timeout=cap)
+        env = dict(os.environ)
+        if z3bin:
+            env["VERIF_Z3"] = z3bin
+        r = subprocess.run([binp, tier(), ",".join(props), out], stdout=subprocess.PIPE, stderr=subprocess.PIPE, text=True, timeout=cap, env=env)
     except subprocess.TimeoutExpired:
         subprocess.run(["pkill", "-x", "z3"])
         raise Malfunction("engine L did not finish within %d s" % cap)
@@ -110,6 +113,21 @@ def run_into(chk, prop):
         if len(chk.samples) < 4 and x["paths"] > 2:
             chk.sample({"harness": x["harness"], "params": x["params"], "paths": x["paths"], "queries": x["queries"], "branching": x["branching"],
                         "sqrt": x["sqrt"], "solver_dialogue_first_path": x["sample_dialogue"][:25]})
+    if tier() == "thorough":
+        # second opinion: the whole exploration again with z3 5.1; path counts and verdicts per instance must coincide
+        import shutil
+        z3new = shutil.which("z3-new")
+        if z3new:
+            rep2 = run_engine([prop], z3bin=z3new)
+            a = {(x["harness"], tuple(x["params"])): (x["paths"], x["paths_ok"], x["n_violating_paths"], x["n_panics"]) for x in rep["results"]}
+            b = {(x["harness"], tuple(x["params"])): (x["paths"], x["paths_ok"], x["n_violating_paths"], x["n_panics"]) for x in rep2["results"]}
+            und2 = {(x["harness"], tuple(x["params"])) for x in rep2["results"] if x["n_undecided"] or x["path_cap_hit"]}
+            und1 = {(x["harness"], tuple(x["params"])) for x in rep["results"] if x["n_undecided"] or x["path_cap_hit"]}
+            diff = [k for k in a if k in b and a[k] != b[k] and k not in und1 and k not in und2]
+            chk.cov["cross_solver"] = {"instances_rerun_with": "z3 5.1.0 (z3-new)", "instances": len(b), "identical_outcome": len(b) - len(diff),
+                                       "undecided_with_second_solver": len(und2)}
+            for k in diff[:5]:
+                chk.malfunction("engine L: z3 4.8.12 and z3 5.1 disagree on %s%s: %s vs %s" % (k[0], list(k[1]), a[k], b[k]))
     chk.cov["L_harnesses"] = per_harness
     chk.cov["L_paths_explored"] = paths
     chk.cov["L_instances"] = sum(h["instances"] for h in per_harness.values())
